@@ -105,7 +105,7 @@ fn render_triple(t: Option<(Language, Option<Script>, Option<Region>)>) -> Strin
         None => "none".to_string(),
         Some((l, s, r)) => format!(
             "some {} {} {}",
-            esc(l.as_str().as_bytes()),
+            crate::render::lang_text(&l),
             s.map_or("~".to_string(), |s| esc(s.as_str().as_bytes())),
             r.map_or("~".to_string(), |s| esc(s.as_str().as_bytes()))
         ),
